@@ -2364,8 +2364,17 @@ func sectionUnflushed() {
 		res.Eval(sec, q)
 		in := map[string]interface{}{"flush_ms": 700, "write": "3 events into the new partition " + tags + ", acknowledged", "then_at_once": []string{strings.Replace(q, "truncate ", "truncate dryrun ", 1), q}, "then": "wait 0.9 s, select"}
 		rs, rerr := readSeqs(after.Read)
+		dryRep, _, _ := parseReport(dry)
+		realRep, _, _ := parseReport(out)
+		if werr == nil && wr.Err == nil && xerr == nil && after.Exists && fmt.Sprint(rs) == "[1 2 3]" && len(dryRep) == 1 && dryRep[0].Deleted && len(realRep) == 0 {
+			// class of finding F84: the dry run's size == 0 branch goes by Size() (flushed bytes) alone and announces the drop of
+			// a partition whose only data is acknowledged but not flushed; the real run keeps it
+			res.SpecFail(vh.SpecFailure{Section: "unflushed", Kind: "dryrun-announces-unflushed-drop", Input: in, Impl: fmt.Sprintf("dry=%q real=%q partition kept with %v", strings.TrimSpace(dry), strings.TrimSpace(out), rs),
+				Spec: "the dry run reports what the run removes: nothing", Model: "dryAnnouncesDrop 0 = true, deleteJournalSeen … 0 0 57 = false (cex_dry_announces_unflushed_drop)", ImplEqModel: true, Finding: "F84",
+				What: "TRUNCATE DRYRUN announces the drop of a partition that holds acknowledged, not yet flushed events; the real run keeps the partition"})
+		}
 		if werr == nil && wr.Err == nil && (xerr != nil || !after.Exists || rerr != "" || fmt.Sprint(rs) != "[1 2 3]") {
-			// class of finding F76: the statement ran while the partition's only data was acknowledged but not yet flushed
+			// class of the FIXED finding F76 (eafecef; a recurrence is reported as "the defect is back"): the statement ran while the partition's only data was acknowledged but not yet flushed
 			// (Journal.Size() counts confirmed bytes only, so the partition looked empty to the size == 0 branch and to deleteJournal)
 			f := vh.SpecFailure{Section: "unflushed", Kind: "acknowledged-unflushed-dropped", Input: in, Impl: fmt.Sprintf("exists=%v read=%v report=%q dry=%q err=%v", after.Exists, after.Read, strings.TrimSpace(out), strings.TrimSpace(dry), xerr), Spec: "partition exists, read = [1 2 3]",
 				Model: "phase1Part with size = 0 (the model's size is what Size() answers): dropped", ImplEqModel: true,
